@@ -86,13 +86,15 @@ def reference(history, draw, B, P, eq):
     return batch, first, sizes, touched, passes, still
 
 
-def case(dims, B, H, P):
-    name = f"d{dims}-B{B}-H{H}-P{P}"
+def case(dims, B, H, P, fixed_hist=None):
+    """fixed_hist: concrete (distinct) history rows instead of symbolic ones - keeps batch size 3 in two dimensions within reach
+    (needed for: two different repeated points AND a fresh point sharing one coordinate with each, in one pass)."""
+    name = f"d{dims}-B{B}-H{H}-P{P}" + ("-fixedhist" if fixed_hist else "")
     npts = B * (P + 1)
 
     def body(ctx):
         pts = [[ctx.int(f"p{k}_{d}", 0, 2) for d in range(dims)] for k in range(npts)]
-        hist = [[ctx.int(f"h{k}_{d}", 0, 2) for d in range(dims)] for k in range(H)]
+        hist = [[ctx.int(f"h{k}_{d}", 0, 2) for d in range(dims)] for k in range(H)] if not fixed_hist else [list(r) for r in fixed_hist]
         hist_arr = np.empty((H, dims), dtype=object)
         for i, r in enumerate(hist):
             for j, v in enumerate(r):
@@ -121,7 +123,7 @@ def case(dims, B, H, P):
     def replay(cex):
         v = cex.values
         pts = [[int(v.get(f"p{k}_{d}") or 0) for d in range(dims)] for k in range(npts)]
-        hist = [[int(v.get(f"h{k}_{d}") or 0) for d in range(dims)] for k in range(H)]
+        hist = [[int(v.get(f"h{k}_{d}") or 0) for d in range(dims)] for k in range(H)] if not fixed_hist else [list(r) for r in fixed_hist]
         it = iter(pts)
         s = Script(B, P, lambda: [float(x) for x in next(it)], dtype=float)
         space = SearchSpace([[0.0] * dims, [2.0] * dims], [1.0] * dims, verbose=False)
@@ -154,7 +156,7 @@ def case(dims, B, H, P):
                 msgs.append(f"a repeat was returned after only {len(s.sizes) - 1} of {P} passes")
         return bool(msgs), f"history={hist} draws={pts} B={B} P={P}: " + ("; ".join(msgs) or "as specified")
 
-    return Case(name, body, replay, time_budget=400, split=4 if (dims == 2 and B == 2 and H + P >= 3) or B * (P + 1) + H >= 7 else 0)
+    return Case(name, body, replay, time_budget=400, split=(8 if fixed_hist else 4) if (dims == 2 and B == 2 and H + P >= 3) or B * (P + 1) + H >= 7 else 0)
 
 
 def cases(tier, seed):
@@ -171,6 +173,8 @@ def cases(tier, seed):
         combos += [(1, 2, 0, 6), (1, 2, 1, 5), (1, 2, 1, 4)]
     for d, B, H, P in combos:
         cs.append(case(d, B, H, P))
+    # two dimensions, batch of three on a fixed two-point history: two DIFFERENT repeated points in one pass plus a third point
+    cs.append(case(2, 3, 2, 1, fixed_hist=[(0, 1), (2, 0)]))
     return cs
 
 
